@@ -80,9 +80,15 @@ _UNIT_EQ = _re.compile(r"^eq\(((?:[A-Za-z_][A-Za-z0-9_]*::)+)([A-Z][A-Za-z0-9_]*
 _UNIT_EQ_R = _re.compile(r"^eq\((.*), ((?:[A-Za-z_][A-Za-z0-9_]*::)+)([A-Z][A-Za-z0-9_]*)\(\)\)$")
 
 
+_LAST_SOME = _re.compile(r"^is\(slice::(?:last|first)\((.*)\); Some\)$")
+
+
 def _unit_variant_eq(a):
     if not isinstance(a, str):
         return a
+    m = _LAST_SOME.match(a)
+    if m and m.group(1).count("(") == m.group(1).count(")"):
+        return "gt(len(%s), 0)" % m.group(1)  # a list has a last (first) element iff it is not empty
     m = _UNIT_EQ.match(a)
     if m:
         return "is(%s; %s)" % (m.group(3), m.group(2))
